@@ -47,16 +47,34 @@ fn gen_nodes(t: &mut Tape, n: usize) -> Vec<Node> {
         } else {
             match t.choose(10) {
                 0 => Node::Num(t.choose(50) as i32),
-                1 => Node::Text(format!("t{}é", t.choose(9))),
-                2 => Node::Sym(format!("s{}", t.choose(6))),
+                1 => {
+                    // mostly short; now and then empty or long enough to cross the store's growth steps
+                    let extra = [0usize, 0, 0, 0, 1, 9, 40, 130][t.choose(8)];
+                    let tail: String = (0..extra).map(|k| ['a', 'é', '漢'][k % 3]).collect();
+                    if extra == 1 { Node::Text(String::new()) } else { Node::Text(format!("t{}é{}", t.choose(9), tail)) }
+                }
+                2 => {
+                    let extra = [0usize, 0, 0, 3, 30][t.choose(5)];
+                    Node::Sym(format!("s{}{}", t.choose(6), "ñ".repeat(extra)))
+                }
                 3 => Node::Pair(pick(t, i), pick(t, i)),
                 4 => Node::KeyedPair(format!("k{}", t.choose(6)), pick(t, i)),
                 5 | 6 => {
-                    let k = t.choose(5);
-                    Node::List((0..k).map(|_| pick(t, i)).collect())
+                    let k = [0usize, 1, 2, 3, 4, 2, 3, 12, 17, 33][t.choose(10)];
+                    if k > 4 {
+                        // a long list refers to leaves only: the reachability expansion visits a shared value once per path
+                        // (the recorded clone-limit finding), so long lists of shared compound values take exponential time
+                        let leaves: Vec<usize> = (0..i).filter(|j| matches!(nodes[*j], Node::Num(_) | Node::Text(_) | Node::Sym(_) | Node::Bytes(_))).collect();
+                        Node::List((0..k).map(|_| leaves[t.choose(leaves.len())]).collect())
+                    } else {
+                        Node::List((0..k).map(|_| pick(t, i)).collect())
+                    }
                 }
                 7 => Node::Concat(pick(t, i), pick(t, i)),
-                8 => Node::Bytes(vec![t.byte(), t.byte()]),
+                8 => {
+                    let k = [2usize, 2, 0, 1, 13, 70][t.choose(6)];
+                    Node::Bytes((0..k).map(|_| t.byte()).collect())
+                }
                 _ => Node::Pair(i - 1, i - 2), // shared sub-values
             }
         };
@@ -72,7 +90,10 @@ fn build_graph(d: &mut B, nodes: &[Node]) -> Result<Graph, String> {
         let (a, v) = match n {
             Node::Num(i) => (d.add_number(SimpleNumber::Integer(*i)).map_err(e)?, V::Int(*i)),
             Node::Text(s) => (d.parse_add_char_list(&format!("\"{}\"", s)).map_err(e)?, value::text(s)),
-            Node::Bytes(b) => (d.parse_add_byte_list(&format!("'''{} {}'''", b[0], b[1])).map_err(e)?, V::Bytes(b.clone())),
+            Node::Bytes(b) => {
+                let spelled = if b.is_empty() { "''".to_string() } else { format!("'''{}'''", b.iter().map(|x| x.to_string()).collect::<Vec<_>>().join(" ")) };
+                (d.parse_add_byte_list(&spelled).map_err(e)?, V::Bytes(b.clone()))
+            }
             Node::Sym(s) => {
                 g.symbols.push(s.clone());
                 (d.parse_add_symbol(s).map_err(e)?, sym(s))
@@ -417,7 +438,7 @@ impl Check for C19Check {
     }
     fn rule(&self) -> String {
         format!(
-            "Phase graphs: BasicGarnishData loaded with random value graphs of 3..30 nodes (numbers, multi-byte text, byte lists, named symbols, pairs, symbol-keyed pairs, lists, concatenations, shared sub-values), a retention count at a random object boundary (none / some / all), random values pushed on the operand stack, the input-value stack and under call frames, random extra roots including values already on a stack or inside the retained prefix; optimize is called twice (second time with the returned mapping). \
+            "Phase graphs: BasicGarnishData loaded with random value graphs of 3..30 nodes (numbers, multi-byte text of 0..130 characters, byte lists of 0..70 bytes, named symbols incl. long non-ASCII names, pairs, symbol-keyed pairs, lists of 0..33 items, concatenations, shared sub-values), a retention count at a random object boundary (none / some / all), random values pushed on the operand stack, the input-value stack and under call frames, random extra roots including values already on a stack or inside the retained prefix; optimize is called twice (second time with the returned mapping). \
              Phase programs: {} pool programs (conditionals, nested calls, reapply loops, side effects, lists, look-ups) and random core ASTs, constants retained after build, with optimize injected before EVERY step (first 80 step boundaries) of the run. Phase clones: clone_data on random nodes of random graphs. \
              Oracle: read-back of every register, value-stack entry, frame (return address and registers visible after returning), symbol name, retained address and extra root (through the returned mapping) is structurally identical before and after; a run with injected compaction ends with the same value as the uninterrupted run; a clone reads back equal to its source and every original still reads back as before. \
              Non-trivial = a graph with shared sub-values and an extra root that is also on a stack, any program, any clone case; distinct = distinct cases.",
